@@ -271,6 +271,15 @@ def check_invalid(case, acc):
         dict(df=3, lower_bound=9.0), dict(df=3, upper_bound=-2.0), dict(df=3, degree=2, intercept=True, lower_bound=6.0), dict(df=4, degree=3, upper_bound=-0.5),
         dict(df=5, knots=[1.0]), dict(df=4, knots=[1.0, 2.0, 3.0]), dict(knots=[[1.0, 2.0]]), dict(df=4, degree="3"),
     ]
+    # every position of one knot outside the range among valid ones, in every order of the list
+    for outside in (6.0, -1.0, 5.5, -0.25):
+        for inside in ([1.0], [1.0, 3.0], [2.0, 4.0, 3.0]):
+            for perm in set(itertools.permutations(inside + [outside])):
+                bad.append(dict(knots=list(perm)))
+                bad.append(dict(knots=np.array(perm)))
+    for perm in itertools.permutations([2.5, 1.0, 4.5]):  # explicit bounds: a knot beyond a bound, anywhere in the list
+        bad.append(dict(knots=list(perm), lower_bound=1.5, upper_bound=5.0))
+        bad.append(dict(knots=list(perm), lower_bound=0.0, upper_bound=4.0))
     problems = []
     for kw in bad:
         acc.calls += 1
@@ -279,7 +288,8 @@ def check_invalid(case, acc):
             problems.append(f"bs(x, {kw}) was accepted")
         except Exception:
             pass
-    good = [dict(df=4), dict(knots=[1.0, 2.0]), dict(df=5, knots=[1.0, 2.0]), dict(df=3, degree=0, intercept=True), dict(knots=[1.0], lower_bound=-1, upper_bound=9), dict(df=4, lower_bound=0, upper_bound=5)]
+    good = [dict(knots=list(p_)) for p_ in itertools.permutations([1.0, 3.0, 2.0])] + [dict(knots=[4.5, 0.5]), dict(knots=np.array([3.0, 1.0]), lower_bound=-1, upper_bound=6)]
+    good += [dict(df=4), dict(knots=[1.0, 2.0]), dict(df=5, knots=[1.0, 2.0]), dict(df=3, degree=0, intercept=True), dict(knots=[1.0], lower_bound=-1, upper_bound=9), dict(df=4, lower_bound=0, upper_bound=5)]
     for kw in good:
         acc.calls += 1
         try:
